@@ -100,3 +100,28 @@ Definition sample_float_scR (sc : scalingR) (lo hi u : R) : R :=
 Definition sample_int_logR (lo hi : Z) (u : R) : Z :=
   let a := ln (IZR lo) in let b := ln (IZR hi) in
   round_heR (IZR (round_heR (exp (a + (b - a) * u)))).
+
+(* HyperparameterRangeFiniteRange with float values (cast_int = False), restated over R
+   (DUPLICATES f_step, f_rint, fr_map_from_int, fr_map_to_int, fr_to_nd, fr_from_nd of Domain.v) *)
+Record frangeR := { rf_lo : R; rf_hi : R; rf_size : Z; rf_sc : scalingR }.
+Definition rf_lo_i (r : frangeR) : R := to_intR (rf_sc r) (rf_lo r).
+Definition rf_hi_i (r : frangeR) : R := to_intR (rf_sc r) (rf_hi r).
+Definition rf_step (r : frangeR) : R :=
+  if Z.ltb 1 (rf_size r) then (rf_hi_i r - rf_lo_i r) / IZR (rf_size r - 1) else 0.
+Definition rf_rint (r : frangeR) : irangeR :=
+  {| ri_lo := 0; ri_hi := rf_size r - 1; ri_sc := linearR; ri_alo := 0; ri_ahi := rf_size r - 1 |}.
+Definition fr_map_from_intR (r : frangeR) (x : Z) : R :=
+  Rclip (from_intR (rf_sc r) (IZR x * rf_step r + rf_lo_i r)) (rf_lo r) (rf_hi r).
+Definition fr_map_to_intR (r : frangeR) (y : R) : option Z :=
+  if Req_EM_T (rf_step r) 0 then Some 0%Z
+  else if sc_domR (rf_sc r) (Rclip y (rf_lo r) (rf_hi r))
+       then Some (round_heR ((Rclip (to_intR (rf_sc r) (Rclip y (rf_lo r) (rf_hi r))) (rf_lo_i r) (rf_hi_i r)
+                              - rf_lo_i r) / rf_step r))
+       else None.
+Definition fr_to_ndR (eps : R) (r : frangeR) (y : R) : option R :=
+  match fr_map_to_intR r y with
+  | Some i => int_to_ndR eps (rf_rint r) i
+  | None => None
+  end.
+Definition fr_from_ndR (eps : R) (r : frangeR) (v : R) : option R :=
+  option_map (fr_map_from_intR r) (int_from_ndR eps (rf_rint r) v).
